@@ -1,5 +1,314 @@
 package main
 
-import "aaverif/internal/gen"
+// End-to-end level: ONE stack with a loopback NIC (10.0.0.1), stack.Pstack pointing at it, the
+// bundled http.Server listening on :8080 and the bundled http.Client / websocket.Client talking to
+// it over the stack's own TCP.  Every exchange runs under a watchdog: the bundled sockets wait for
+// a notification that can be lost if data arrives before the waiter is registered, or woken early
+// by a writable event; such an exchange proves nothing about C20 (which is about what is delivered,
+// not about liveness) and is retried on a fresh connection; the number of retries is reported.
 
-func runE2E(r *gen.Rng, n int, big int) {}
+import (
+	"fmt"
+	"strings"
+	"sync"
+	"time"
+
+	"aaverif/internal/gen"
+
+	"github.com/brewlin/net-protocol/config"
+	tcpip "github.com/brewlin/net-protocol/protocol"
+	"github.com/brewlin/net-protocol/protocol/application/http"
+	"github.com/brewlin/net-protocol/protocol/application/websocket"
+	"github.com/brewlin/net-protocol/protocol/link/loopback"
+	"github.com/brewlin/net-protocol/protocol/network/ipv4"
+	"github.com/brewlin/net-protocol/protocol/transport/tcp"
+	"github.com/brewlin/net-protocol/stack"
+)
+
+const e2eIP = "10.0.0.1"
+const e2ePort = 8080
+
+var e2eSrv *http.Server
+var e2eMu sync.Mutex
+
+func e2eSetup() {
+	s := stack.New([]string{ipv4.ProtocolName}, []string{tcp.ProtocolName}, stack.Options{})
+	if err := s.CreateNIC(1, loopback.New()); err != nil {
+		panic(err.String())
+	}
+	if err := s.AddAddress(1, ipv4.ProtocolNumber, tcpip.Address("\x0a\x00\x00\x01")); err != nil {
+		panic(err.String())
+	}
+	s.SetRouteTable([]tcpip.Route{{Destination: "\x00\x00\x00\x00", Mask: "\x00\x00\x00\x00", Gateway: "", NIC: 1}})
+	stack.Pstack = s
+	config.HardwardIp = e2eIP
+	config.HardwardName = "lo"
+	e2eSrv = http.NewHTTP("tap-unused", "10.0.0.0/24", e2eIP, fmt.Sprint(e2ePort))
+	go e2eSrv.ListenAndServ()
+	time.Sleep(20 * time.Millisecond)
+}
+
+// within runs f with a deadline; false = it did not return in time (its goroutine is abandoned).
+func within(d time.Duration, f func()) (ok bool, panicked bool) {
+	done := make(chan bool, 1)
+	go func() {
+		defer func() {
+			if recover() != nil {
+				done <- true
+				return
+			}
+		}()
+		f()
+		done <- false
+	}()
+	select {
+	case p := <-done:
+		return true, p
+	case <-time.After(d):
+		return false, false
+	}
+}
+
+var e2eRetries, e2eGiveUps int
+
+// one HTTP exchange through the exported API only (plus VerifReqOf to look at unexported fields)
+func e2eHTTP(q reqSpec, rt []route) bool {
+	url := fmt.Sprintf("http://%s:%d%s", e2eIP, e2ePort, q.path)
+	for attempt := 0; attempt < 4; attempt++ {
+		http.VerifResetMux()
+		var mu sync.Mutex
+		invoked, ninv := -1, 0
+		var seen http.VerifReq
+		handlerDone := make(chan struct{}, 8)
+		for i := range rt {
+			i := i
+			e2eSrv.HandleFunc(rt[i].pat, func(rq *http.Request, rs *http.Response) {
+				mu.Lock()
+				invoked = i
+				ninv++
+				seen = http.VerifReqOf(rq)
+				mu.Unlock()
+				for _, c := range rt[i].errs {
+					rs.Error(c)
+				}
+				rs.End(rt[i].body)
+				handlerDone <- struct{}{}
+			})
+		}
+		var result string
+		var cli http.VerifReq
+		var cst int
+		var final map[string]string
+		var rerr error
+		ok, pan := within(3*time.Second, func() {
+			c, err := http.NewClient(url)
+			if err != nil {
+				rerr = err
+				return
+			}
+			time.Sleep(3 * time.Millisecond) // let the server register its waiter (see file comment)
+			c.SetMethod(q.method)
+			c.SetHeaders(q.extra)
+			c.SetData(q.body)
+			result, rerr = c.GetResult()
+			cli = http.VerifReqOf(c.GetRequest())
+			cst = http.VerifConStatus(c.GetConnection())
+			final = http.VerifClientHeaders(c)
+			c.GetConnection().Close()
+		})
+		mu.Lock()
+		inv, n, sn := invoked, ninv, seen
+		mu.Unlock()
+		if !ok || pan || rerr != nil || (cli.MethodRaw == "" && cli.Body == "" && result == "") {
+			// lost wake-up / early wake-up / panic in the transport glue: not a C20 observation
+			e2eRetries++
+			time.Sleep(30 * time.Millisecond)
+			continue
+		}
+		if n == 0 {
+			sn = http.VerifReq{Headers: map[string]string{}}
+		}
+		fmt.Fprintf(w, "CE2E %s %s %s %s %s %s %d %s %s %s %s\n", S(q.method), S(q.path), HM(final), S(q.body),
+			routesTerm(rt), Z(int64(inv)), n, Req(sn), Req(cli), Z(int64(cst)), S(result))
+		count("e2e-http")
+		return true
+	}
+	e2eGiveUps++
+	return false
+}
+
+type wsMsg struct {
+	key     []byte // nil: sent with the bundled client's Push (unmasked); else a raw masked frame
+	payload []byte
+}
+
+func e2eWS(path string, c2s []wsMsg, s2c [][]byte, lockstep bool) bool {
+	url := fmt.Sprintf("http://%s:%d%s", e2eIP, e2ePort, path)
+	for attempt := 0; attempt < 4; attempt++ {
+		http.VerifResetMux()
+		var mu sync.Mutex
+		var srvGot []string
+		var keySeen string
+		got := make(chan struct{}, len(c2s)+4)
+		srvDone := make(chan struct{}, 1)
+		e2eSrv.HandleFunc(path, func(rq *http.Request, rs *http.Response) {
+			defer func() { recover(); srvDone <- struct{}{} }()
+			mu.Lock()
+			keySeen = rq.GetHeader("Sec-WebSocket-Key")
+			mu.Unlock()
+			c, err := websocket.Upgrade(rq, rs)
+			if err != nil {
+				return
+			}
+			for range c2s {
+				d, err := c.ReadData()
+				mu.Lock()
+				if err != nil {
+					srvGot = append(srvGot, "(IErr 6)")
+				} else {
+					srvGot = append(srvGot, "(IOk "+B(d)+")")
+				}
+				mu.Unlock()
+				got <- struct{}{}
+				if err != nil {
+					return
+				}
+			}
+			for _, m := range s2c {
+				c.SendData(m)
+				if lockstep {
+					time.Sleep(2 * time.Millisecond)
+				}
+			}
+		})
+		var cliGot []string
+		var acc string
+		ok, pan := within(20*time.Second, func() {
+			c, err := websocket.NewClient(url)
+			if err != nil {
+				return
+			}
+			time.Sleep(3 * time.Millisecond)
+			if err := c.Upgrade(); err != nil {
+				return
+			}
+			acc = websocket.VerifClientHTTP(c).GetRequest().GetHeader("Sec-WebSocket-Accept")
+			for _, m := range c2s {
+				if m.key == nil {
+					c.Push(string(m.payload))
+				} else {
+					f := fdesc{b0: 0x81, key: m.key, cls: minCls(len(m.payload)), lenv: uint64(len(m.payload)), payload: m.payload}
+					websocket.VerifClientCon(c).Write(f.bytes())
+				}
+				if lockstep {
+					select {
+					case <-got:
+					case <-time.After(10 * time.Second):
+						return
+					}
+				}
+			}
+			for range s2c {
+				d, err := c.Recv()
+				if err != nil {
+					cliGot = append(cliGot, "(IErr 6)")
+					return
+				}
+				cliGot = append(cliGot, "(IOk "+S(d)+")")
+			}
+			select {
+			case <-srvDone:
+			case <-time.After(5 * time.Second):
+			}
+			c.Close()
+		})
+		mu.Lock()
+		sg, ks := append([]string(nil), srvGot...), keySeen
+		mu.Unlock()
+		if !ok || pan || acc == "" || len(sg) != len(c2s) || len(cliGot) != len(s2c) {
+			e2eRetries++
+			time.Sleep(50 * time.Millisecond)
+			continue
+		}
+		var ups []string
+		for _, m := range c2s {
+			ups = append(ups, fmt.Sprintf("(%s,%s)", B(m.key), patOrB(m.payload)))
+		}
+		var downs []string
+		for _, m := range s2c {
+			downs = append(downs, patOrB(m))
+		}
+		fmt.Fprintf(w, "CWsE2E %s %s %s [%s] [%s] [%s] [%s]\n", S(ks), B(digestOf(ks)), S(acc),
+			strings.Join(ups, ";"), strings.Join(downs, ";"), strings.Join(sg, ";"), strings.Join(cliGot, ";"))
+		count("e2e-ws")
+		return true
+	}
+	e2eGiveUps++
+	return false
+}
+
+// large payloads chosen by the driver are pattern bytes, written as (PAT n seed)
+var patTerms = map[string]string{}
+
+func patBytes(r *gen.Rng, n int) []byte {
+	p := pat{n, r.U32()}
+	b := p.bytes()
+	if n > 256 {
+		patTerms[string(b)] = p.term()
+	}
+	return b
+}
+func patOrB(b []byte) string {
+	if t, ok := patTerms[string(b)]; ok {
+		return t
+	}
+	return B(b)
+}
+
+func runE2E(r *gen.Rng, n int, big int) {
+	e2eSetup()
+	// HTTP exchanges: requests of G (printable paths: the client's URL parser stops at a newline)
+	nh := n * 2 / 3
+	for i := 0; i < nh; i++ {
+		q := genReq(r)
+		for strings.ContainsAny(q.path, "\r\n\x00") || !strings.HasPrefix(q.path, "/") {
+			q.path = genUri(r)
+		}
+		rt := genRoutes(r, q.path)
+		e2eHTTP(q, rt)
+	}
+	// WebSocket sessions
+	lens := []int{0, 1, 125, 126, 127, 200, 1000}
+	nw := n - nh
+	for i := 0; i < nw; i++ {
+		var c2s []wsMsg
+		var s2c [][]byte
+		k := 1 + r.Intn(4)
+		for j := 0; j < k; j++ {
+			m := wsMsg{payload: patBytes(r, lens[r.Intn(len(lens))])}
+			if r.Bool() {
+				m.key = r.Bytes(4)
+			}
+			c2s = append(c2s, m)
+		}
+		k = 1 + r.Intn(4)
+		for j := 0; j < k; j++ {
+			s2c = append(s2c, patBytes(r, lens[r.Intn(len(lens))]))
+		}
+		e2eWS(fmt.Sprintf("/ws%d", i), c2s, s2c, i%2 == 0)
+	}
+	if big >= 2 {
+		// both sides of the 16-bit boundary in both directions, masked and not, one connection
+		e2eWS("/wsbig1", []wsMsg{{payload: patBytes(r, 65535)}, {key: r.Bytes(4), payload: patBytes(r, 65536)}},
+			[][]byte{patBytes(r, 65536), patBytes(r, 65535)}, true)
+	}
+	if big >= 2 {
+		e2eWS("/wsbig2", []wsMsg{{key: r.Bytes(4), payload: patBytes(r, 65537)}, {payload: patBytes(r, 65537)}, {payload: patBytes(r, 0)}},
+			[][]byte{patBytes(r, 65537), patBytes(r, 126)}, true)
+	}
+	if big >= 3 {
+		e2eWS("/wsbig3", []wsMsg{{payload: patBytes(r, 200*1024)}, {key: r.Bytes(4), payload: patBytes(r, 200*1024)}},
+			[][]byte{patBytes(r, 200*1024)}, true)
+	}
+	fmt.Fprintf(w, "# e2e: %d exchanges retried on a fresh connection (lost or early wake-up in the socket glue), %d given up\n", e2eRetries, e2eGiveUps)
+}
